@@ -218,16 +218,16 @@ PROPS['C15'] = dict(
 
 PROPS['C16'] = dict(
     level='proof',
-    technique='Kani loop-free differential check of the two real constant encoders (full value domain, constant (base2k, k)); Verus contracts on the real text of the CKKS metadata algebra (checked_*, ensure_*, get_mul_*_params, offsets, set_meta_checked, CKKSInfos defaults) and of the ciphertext additions / subtractions (ckks_{add,sub}_into_unsafe, ckks_{add,sub}_assign_unsafe) over an abstract torus algebra of the GLWE operations',
-    level_text='Unbounded proof over all usize inputs under the type invariant log_delta+log_budget <= 2^32: Ok exactly under the documented inequality, with the documented values; never success with log_delta+log_budget exceeding the stored precision; no overflow/panic on the admissible domain. Value tracking of ct+ct / ct-ct (out of place and in place), for EVERY metadata combination: val(dst) == val(a) +/- val(b) where val(t, budget) is the value a torus content t carries at a given budget -- the operand with more budget is shifted by exactly the budget difference plus the common offset, the resulting log_delta/log_budget are min(..)/min(..)-offset, Err exactly when the offset exceeds the smaller budget and then the metadata is untouched.',
-    level_note='anyhow::Error replaced by an opaque struct (R6); the newtype wrappers are restated (I-NEWTYPE); the value statement rests on four axioms about the GLWE operations on torus contents (a left shift by k with k bits less budget is the same value; values add; shift by 0 is the identity; addition commutes), truncation to the destination limb count ignored; the plaintext/constant variants, multiplication, rescale, rotation and all numerical slot semantics are undecided.',
+    technique='Kani loop-free differential check of the two real constant encoders (full value domain, constant (base2k, k)); Verus contracts on the real text of the CKKS metadata algebra (checked_*, ensure_*, get_mul_*_params, offsets, set_meta_checked, CKKSInfos defaults) and of the ciphertext operations (ckks_{add,sub}_{into,assign}, safe and unsafe forms; rescale / align; multiplication and division by a power of two; negation; conjugation; slot rotation) over an abstract torus algebra of the GLWE operations',
+    level_text='Unbounded proof over all usize inputs under the type invariant log_delta+log_budget <= 2^32: Ok exactly under the documented inequality, with the documented values; never success with log_delta+log_budget exceeding the stored precision; no overflow/panic on the admissible domain. Value tracking of ct+ct / ct-ct (out of place and in place), for EVERY metadata combination: val(dst) == val(a) +/- val(b) where val(t, budget) is the value a torus content t carries at a given budget -- the operand with more budget is shifted by exactly the budget difference plus the common offset, the resulting log_delta/log_budget are min(..)/min(..)-offset, Err exactly when the offset exceeds the smaller budget and then the metadata is untouched.  Rescale / align / pow2 / negation / conjugation / rotation: the message is unchanged, scaled by 2^(+/-bits), negated, or mapped by the automorphism of the key asked for; log_delta + log_budget stays within the destination; failure exactly under the stated inequality (or a missing rotation key).',
+    level_note='anyhow::Error replaced by an opaque struct (R6); the newtype wrappers are restated (I-NEWTYPE); the value statement rests on four axioms about the GLWE operations on torus contents (a left shift by k with k bits less budget is the same value; values add; shift by 0 is the identity; addition commutes), truncation to the destination limb count ignored; further axioms for the later additions (AX-SCALE, AX-LSH2, AX-SCALE-INV, AX-NEG, AX-NORM, AX-AUT; a model of all of them: val(t, b) = t * 2^b); the plaintext variants of add / sub, the ciphertext multiplication value, the composite operations and all numerical slot semantics are undecided.',
     units=[V('ckks_meta'), V('ckks_align'),
            K('poulpy-ckks', 'layouts::plaintext::cst::verif_kani', ['c16_const_digits__b19_k52', 'c16_const_digits__b19_k57', 'c16_const_digits__b19_k9', 'c16_const_digits__b52_k9'], cls='complete', timeout=900,
              functions=['encode_const_coeff_i64 vs encode_const_coeff_i128 (poulpy-ckks/src/layouts/plaintext/cst.rs): same digits at the requested precision k for every value both represent; (base2k, k) constant per harness: k not a multiple / a multiple / below one limb'])],
     trusted_base=VERUS_TRUST + ['I-NEWTYPE: TorusPrecision/Base2K (macro-generated in poulpy-core) restated in the unit; usize::next_multiple_of assumed specification',
                   'ckks_align: axioms AX-LSH, AX-ADD, AX-0, AX-COMM on the uninterpreted torus algebra (external_body proof functions); GLWE operation contracts on torus contents (their column-wise delegation is proved in unit glwe_ops)'],
     assumptions=['type invariant effective_k <= max_k <= 2^32 of every operand (precondition)'],
-    remainder='decoded slot values vs complex arithmetic (f64/f128 + DFT); metadata updates inlined in ckks_add/sub/pow2/rescale bodies',
+    remainder='decoded slot values vs complex arithmetic (f64/f128 + DFT); plaintext variants of add / sub; composite operations (dot product, mul_add, add_many)',
 )
 
 PROPS['C18'] = dict(
